@@ -9,9 +9,22 @@
                       the SAME result, for every query point.
    searchsorted(side="right") commutes with the scaling of the axis and of the query by c > 0.
 
-   NO hypothesis on the arrays: the statements hold for every `arr R` (any shape, any length of the data list, axes
-   not sorted, times zero or negative, source anywhere), every query and in every branch of the kernels (outside,
-   source's cell, zero corner time, far faces with their dummy corners d = 0.0 / t = 1.0, generic cell).
+   MAIN RESULTS
+     ssr_scale                                         (V1)
+     vinterp2d_scale, vinterp3d_scale                  both units at once: lengths by cl > 0, vzero by cz <> 0, times by
+                                                       cl cz: result' = if in hull then cl cz * result else fval
+     vinterp2d_scale_length,   vinterp3d_scale_length  (V2), (V4)   = the case cz = 1
+     vinterp2d_scale_slowness, vinterp3d_scale_slowness (V3), (V5)  = the case cl = 1
+     vinterp2d_scale_outside,  vinterp3d_scale_outside  outside the hull BOTH runs return fval (inhullb_scale: the hull
+                                                       test itself is the same in both runs)
+     interp2d_scale, interp3d_scale                    (V6)
+     interp2d_scale_values, interp3d_scale_values      complement: node values by any c, same axes: c * result in the hull
+                                                       (this one needs well-formed axes, see section 9)
+   `inhullb a q` (TranslateR.v) is the kernels' own test  a[0] <= q <= a[-1].
+
+   NO hypothesis on the arrays in (V1)-(V6): the statements hold for every `arr R` (any shape, any length of the data
+   list, axes not sorted, times zero or negative, source anywhere), every query and in every branch of the kernels
+   (outside, source's cell, zero corner time, far faces with their dummy corners d = 0.0 / t = 1.0, generic cell).
    Reason: every test in the kernels is a comparison between two lengths (or of a time with 0.0), the only absolute
    constants are 0.0, 1.0 (dummy corners: the quotient 0.0 / 1.0 is the same in both runs) and 2.0 (mirror node
    2 x1 - x[-2], homogeneous of degree 1); there is no absolute epsilon.  Over R division is total (x / 0 = x * / 0)
@@ -397,3 +410,96 @@ Proof.
   revert Eu' Eu. split_Zeqb; cbn [andb negb]; intros Eu' Eu; subst u u'; cbn [fst snd];
   apply (iform3 (c * c * c)); try assumption; abs_scaled.
 Qed.
+
+(* ================================================================== *)
+(* 9. complement to (V6): node VALUES multiplied by c (slowness unit for a gradient grid, velocity unit for the
+      velocity model), same axes: c * result inside the hull.  Here the kernels' dummy corners (value 1.0 on a far
+      face, NOT scaled) matter: they carry weight 0 only on well-formed axes, so the axis hypotheses of InterpR.v
+      are needed (ascending axes with >= 2 nodes, matching shape); c is ANY real. *)
+(* ================================================================== *)
+Theorem interp2d_scale_values (c : R) (x y v : arr R) (nx ny : Z) (xq yq fval : R) :
+  axis x nx -> axis y ny -> shape v = [nx; ny] ->
+  u_interp2d_v x y (scale_arr c v) xq yq fval =
+  if (inhullb x xq && inhullb y yq)%bool then c * u_interp2d_v x y v xq yq fval else fval.
+Proof.
+  intros Ax Ay Sv. destruct (inhullb x xq && inhullb y yq)%bool eqn:E.
+  - apply andb_prop in E as [Ex Ey].
+    pose proof (inhullb_true x nx xq Ax Ex) as Hx. pose proof (inhullb_true y ny yq Ay Ey) as Hy.
+    rewrite (interp2d_spec x y (scale_arr c v) nx ny xq yq fval Ax Ay Sv Hx Hy).
+    rewrite (interp2d_spec x y v nx ny xq yq fval Ax Ay Sv Hx Hy).
+    unfold bilin, bilin_core. rewrite !scale_get. cbv zeta. ring.
+  - apply interp2d_outside. exact E.
+Qed.
+
+Theorem interp3d_scale_values (c : R) (x y z v : arr R) (nx ny nz : Z) (xq yq zq fval : R) :
+  axis x nx -> axis y ny -> axis z nz -> shape v = [nx; ny; nz] ->
+  u_interp3d_v x y z (scale_arr c v) xq yq zq fval =
+  if (inhullb x xq && inhullb y yq && inhullb z zq)%bool then c * u_interp3d_v x y z v xq yq zq fval else fval.
+Proof.
+  intros Ax Ay Az Sv. destruct (inhullb x xq && inhullb y yq && inhullb z zq)%bool eqn:E.
+  - apply andb_prop in E as [E Ez]. apply andb_prop in E as [Ex Ey].
+    pose proof (inhullb_true x nx xq Ax Ex) as Hx. pose proof (inhullb_true y ny yq Ay Ey) as Hy.
+    pose proof (inhullb_true z nz zq Az Ez) as Hz.
+    rewrite (interp3d_spec x y z (scale_arr c v) nx ny nz xq yq zq fval Ax Ay Az Sv Hx Hy Hz).
+    rewrite (interp3d_spec x y z v nx ny nz xq yq zq fval Ax Ay Az Sv Hx Hy Hz).
+    unfold trilin, trilin_core. rewrite !scale_get. cbv zeta. ring.
+  - apply interp3d_outside. exact E.
+Qed.
+
+(* ================================================================== *)
+(* 10. non-vacuity: the 2 x 2 grid of VinterpR.v (nodes x = 0, 12, y = 5, 9, times 5, 9, 26, 30, source (0,0)),
+       every query of its hull, every c > 0: the scaled run returns c * (reference), and the reference result is a
+       genuine interpolated time (between dq and 2 dq, vinterp2d_bounds_example), not the fill value *)
+(* ================================================================== *)
+Lemma inhullb_intro (a : arr R) (q : R) :
+  get 0 a [0%Z] <= q <= get 0 a [(dim a 0%nat - 1)%Z] -> inhullb a q = true.
+Proof.
+  intros [H0 H1]. unfold inhullb. cbn [nleb nofZ NumR].
+  rewrite (proj2 (Rleb_true _ _) H0), (proj2 (Rleb_true _ _) H1). reflexivity.
+Qed.
+
+Example vinterp2d_scale_example (c xq yq vzero fval : R) : 0 < c -> 0 <= xq <= 12 -> 5 <= yq <= 9 ->
+  let dq := R_sqrt.sqrt ((0 - xq) ^ 2 + (0 - yq) ^ 2) in
+  let ref := u_vinterp2d_v xe ye ve xq yq 0 0 vzero fval in
+  u_vinterp2d_v (scale_arr c xe) (scale_arr c ye) (scale_arr c ve) (c * xq) (c * yq) (c * 0) (c * 0) vzero fval
+    = c * ref /\
+  u_vinterp2d_v xe ye (scale_arr c ve) xq yq 0 0 (c * vzero) fval = c * ref /\
+  dq / 1 <= ref <= dq / (1 / 2).
+Proof.
+  intros Hc Hx Hy dq ref.
+  assert (Ix : inhullb xe xq = true) by (apply inhullb_intro; unfold get; simpl; exact Hx).
+  assert (Iy : inhullb ye yq = true) by (apply inhullb_intro; unfold get; simpl; exact Hy).
+  split; [|split].
+  - rewrite (vinterp2d_scale_length c xe ye ve xq yq 0 0 vzero fval Hc), Ix, Iy. reflexivity.
+  - rewrite (vinterp2d_scale_slowness c xe ye ve xq yq 0 0 vzero fval ltac:(lra)), Ix, Iy. reflexivity.
+  - apply vinterp2d_bounds_example; assumption.
+Qed.
+
+(* the axis hypotheses of section 9 are satisfiable: the same grid *)
+Example interp2d_scale_values_example (c xq yq fval : R) : 0 <= xq <= 12 -> 5 <= yq <= 9 ->
+  u_interp2d_v xe ye (scale_arr c ve) xq yq fval = c * u_interp2d_v xe ye ve xq yq fval.
+Proof.
+  intros Hx Hy.
+  assert (Ix : inhullb xe xq = true) by (apply inhullb_intro; unfold get; simpl; exact Hx).
+  assert (Iy : inhullb ye yq = true) by (apply inhullb_intro; unfold get; simpl; exact Hy).
+  rewrite (interp2d_scale_values c xe ye ve 2 2 xq yq fval (axis2 0 12 ltac:(lra)) (axis2 5 9 ltac:(lra)) eq_refl).
+  rewrite Ix, Iy. reflexivity.
+Qed.
+
+Print Assumptions ssr_scale.
+Print Assumptions inhullb_scale.
+Print Assumptions axis_scale.
+Print Assumptions vinterp2d_scale.
+Print Assumptions vinterp2d_scale_outside.
+Print Assumptions vinterp2d_scale_length.
+Print Assumptions vinterp2d_scale_slowness.
+Print Assumptions vinterp3d_scale.
+Print Assumptions vinterp3d_scale_outside.
+Print Assumptions vinterp3d_scale_length.
+Print Assumptions vinterp3d_scale_slowness.
+Print Assumptions interp2d_scale.
+Print Assumptions interp3d_scale.
+Print Assumptions interp2d_scale_values.
+Print Assumptions interp3d_scale_values.
+Print Assumptions vinterp2d_scale_example.
+Print Assumptions interp2d_scale_values_example.
